@@ -24,6 +24,12 @@ CHECKS = {
  "C08": dict(level="exploration", engine="world",
    text="In every simulated cluster run the task graph compiled by each worker (read from the live worker through a tagged accessor) is compared with the driver's, with a recompilation and with a compilation after a gob round trip of the invocation; a well-formedness oracle stated from the property is evaluated on the driver graph; graph digests are compared across groups of 4 separately started processes with different seeded map/select orders.",
    design="§6 C08", technique="deterministic simulation with seeded runtime randomness, invariant monitor on live driver/worker state, cross-process digest agreement", note=WHOLE),
+ "C12": dict(level="exploration", engine="world",
+   text="Seeded client histories (run, scan, scan||scan, run over 1-2 earlier Results through pipelined or redistributing operators, discard, discard||run, kill machine) on both executors in one simulated session; every Result is modelled by the reference rows of its program over its arguments' model rows; every successful scan must equal the model, Funcs run after discards/kills must succeed, nothing may hang. Network delays on Worker.Discard/Run decide the discard/run interleavings.",
+   design="§6 C12", technique="deterministic simulation, seeded operation histories against a reference model", note=WHOLE),
+ "C19": dict(level="exploration", engine="world",
+   text="2-5 concurrent client goroutines in one simulated session share base results (runs through pipelined and redistributing operators, scans, optional discard); seeded virtual delays at RPC seams, in user functions and at the simhook yield points order the elections and wake-ups; each successful scan equals the reference of its program as if alone; a yield-hook monitor checks that no task has two Executor.Run calls in flight; thorough tier re-runs every third case under the race detector (race reports with /repo frames are violations).",
+   design="§6 C19", technique="deterministic simulation with seeded yield/delay schedules, reference-model oracle, in-flight monitor, race detector in thorough tier", note=WHOLE),
 }
 
 NOT_APPLICABLE = {
